@@ -12,7 +12,7 @@ from .. import boolfn
 
 TT = "mosaik.tiered_time.TieredTime"
 TI = "mosaik.tiered_time.TieredInterval"
-MIN_INSTANCES = 7
+MIN_INSTANCES = 8
 
 
 def run(ctx: Ctx) -> Collector:
@@ -21,6 +21,7 @@ def run(ctx: Ctx) -> Collector:
     _class_shape(ctx, c, TI)
     _tt_lt(ctx, c)
     _ti_lt(ctx, c)
+    _ti_init(ctx, c)
     _additions(ctx, c)
     _contradictions(ctx, c)
     return c
@@ -199,6 +200,13 @@ def _ti_lt(ctx: Ctx, c: Collector) -> None:
             ps, po = kind
             a[L1], a[E1], a[G1] = ps == "b", ps == "a", ps == "B"
             a[L2], a[E2], a[G2] = po == "b", po == "a", po == "B"
+            # the index relative to the smaller / larger of the two cutoffs
+            lo_pos = ps if direction in (None, "OA") else po
+            hi_pos = po if direction in (None, "OA") else ps
+            for name, pos in (("min", lo_pos), ("max", hi_pos)):
+                for x, y in ((sc, oc), (oc, sc)):
+                    agg = ("agg", name, ("bag", (("elem", x, (), ()), ("elem", y, (), ())), "args"), ())
+                    a[("cmp", "<", iv, agg)], a[T.canon_cmp("==", iv, agg)], a[("cmp", "<", agg, iv)] = pos == "b", pos == "a", pos == "B"
         for v, val in sigma.items():
             a[T.var(v)] = val
         return a
@@ -340,6 +348,50 @@ def _ti_lt(ctx: Ctx, c: Collector) -> None:
     if not any(e.term[1] in (lens, lens2) for e in s.of_kind("assert")):
         pr.append("no assertion that both intervals have the same length")
     c.add("ti-lt", qn, "lexicographic scan", VIOLATED if pr else DISCHARGED, "; ".join(sorted(set(pr))) if pr else f"product of the scan loop with the order specification: {explored} (state, letter) pairs agree", loc)
+
+
+def _ti_init(ctx: Ctx, c: Collector) -> None:
+    """The shape a delay denotes when it is written down without all of its parts: the cutoff defaults to
+    the number of tiers and the pre_length to the cutoff; the three fields are stored from the (defaulted)
+    arguments.  Decided by cases on which arguments are given."""
+    qn = TI + ".__init__"
+    fi = ctx.func(qn)
+    s = ctx.summ(qn)
+    me = T.var(fi.params[0])
+    tiers, cutoff, pre = T.var("tiers"), T.var("cutoff"), T.var("pre_length")
+    stored: Dict[str, Term] = {}
+    for e in s.of_kind("call"):
+        if e.term[1] == ("attr", T.glob("object"), "__setattr__") and len(e.term[2]) == 3 and e.term[2][0] == me and e.term[2][1][0] == "const":
+            stored[e.term[2][1][1]] = e.term[2][2]
+    for e in s.of_kind("store"):
+        if e.term[1][0] == "attr" and e.term[1][1] == me:
+            stored[e.term[1][2]] = e.term[2]
+    pr: List[str] = []
+    NC, NP = ("cmp", "is", cutoff, T.NONE), ("cmp", "is", pre, T.NONE)
+    n_t = call(T.glob("len"), tiers)
+    for f in ("pre_length", "cutoff", "tiers"):
+        if f not in stored:
+            pr.append(f"the field {f} is not stored")
+    if not pr:
+        try:
+            for nc in (False, True):
+                for np_ in (False, True):
+                    row = {NC: nc, NP: np_}
+                    want_c = n_t if nc else cutoff
+                    want_p = want_c if np_ else pre
+                    got_c = T.strip(boolfn.resolve_phi(unalias(stored["cutoff"], s, fi), row))
+                    got_p = T.strip(boolfn.resolve_phi(unalias(stored["pre_length"], s, fi), row))
+                    case = f"cutoff {'omitted' if nc else 'given'}, pre_length {'omitted' if np_ else 'given'}"
+                    if got_c != want_c:
+                        pr.append(f"{case}: the cutoff is {T.show(got_c)} instead of {T.show(want_c)}")
+                    if got_p != want_p:
+                        pr.append(f"{case}: the pre_length is {T.show(got_p)} instead of {T.show(want_p)} (a delay written as TieredInterval(*tiers, cutoff=c) applies to times with c tiers)")
+            if T.strip(unalias(stored["tiers"], s, fi)) != tiers:
+                pr.append("the tiers are not stored as given")
+        except boolfn.NotBoolean as ex:
+            c.unk("ti-init", qn, "defaults: cutoff = len(tiers), pre_length = cutoff", f"condition not understood: {ex}", fi.loc)
+            return
+    c.add("ti-init", qn, "defaults: cutoff = len(tiers), pre_length = cutoff", VIOLATED if pr else DISCHARGED, "; ".join(pr), fi.loc)
 
 
 def _expand_props(ctx: Ctx, cls: str, t: Any, depth: int = 3) -> Any:
